@@ -77,8 +77,21 @@ def h_point_equations(h, n, guess_mode):
             err = None
         except CalculationError as e:
             load, err = None, e
-    call = root.calls[0]
     cid = f'C13/point/n={n}/{guess_mode}'
+    if not root.calls:
+        # a result produced without consulting the solver must still satisfy the IAST equations
+        if err is not None:
+            h.claim(f'{cid}/refused-without-consulting-the-solver(no claim)', True, info=str(err)[:80])
+            return
+        load = [numpy.float64(v) for v in load] if not h.sym else list(load)
+        tot = sum(load[1:], load[0])
+        xs = [v / tot for v in load]
+        ok = True
+        for i in range(n - 1):
+            ok = ok & h.eq(h.fun(f'pi_{i}', pp[i] / xs[i]), h.fun(f'pi_{i + 1}', pp[i + 1] / xs[i + 1]))
+        h.claim(f'{cid}/equal-spreading-pressures', ok, info='result returned without a solver call')
+        return
+    call = root.calls[0]
     x0 = list(numpy.asarray(call.x0, dtype=object))
     h.claim(f'{cid}/n-1-unknowns,method=lm', len(x0) == n - 1 and call.method == 'lm')
     if guess_mode == 'default':
@@ -169,14 +182,19 @@ def h_closed_form(h, name, n, order):
         except CalculationError as e:
             load, err = None, e
     cid = f'C13/closed-form/{name}/n={n}/order={"".join(map(str, perm))}'
-    x = list(numpy.asarray(root.calls[0].x, dtype=object))
-    xs = x + [1.0 - sum(x[1:], x[0])]
-    if err is not None:
-        outside = False
-        for v in xs:
-            outside = outside | (v < 0) | (v > 1)
-        h.claim(f'{cid}/refused-only-for-fractions-outside-[0,1]', outside)
+    if root.calls:
+        x = list(numpy.asarray(root.calls[0].x, dtype=object))
+        xs = x + [1.0 - sum(x[1:], x[0])]
+        if err is not None:
+            outside = False
+            for v in xs:
+                outside = outside | (v < 0) | (v > 1)
+            h.claim(f'{cid}/refused-only-for-fractions-outside-[0,1]', outside)
+            return
+    elif err is not None:
+        h.claim(f'{cid}/refused-without-consulting-the-solver(no claim)', True, info=str(err)[:80])
         return
+    # (a result produced without consulting the solver must satisfy the closed form all the same)
     load = list(load)
     ok = True
     den = 1
